@@ -8,6 +8,7 @@
 From Coq Require Import ZArith List String Bool Lia ZifyBool.
 From Hexital Require Import Base.Prelude Base.Num Model.Manager Model.Candle Model.Readings Model.Analysis Model.Engine
   Proofs.ListProofs Proofs.EngineProofs Proofs.CausalProofs Proofs.TrimProofs.
+From Hexital Require Import Proofs.TrimWin.
 Import ListNotations.
 Local Open Scope Z_scope.
 
@@ -19,16 +20,17 @@ Notation cd := (cd payload).
 Notation store := (store NO).
 Variable I : ind NO.
 Variable W : Z.
-Hypothesis HW : lookback NO (i_kind NO I) = Some W.
-Hypothesis Hp : period_ok NO (i_kind NO I).
 Notation calc := (pure_calc NO I).
+(* the reading function looks back at most W candles *)
+Hypothesis HW0 : 0 <= W.
+Hypothesis Hloc : forall (pre st : store) i, zlen pre + W <= i < zlen (pre ++ st) ->
+  calc (pre ++ st) i = calc st (i - zlen pre).
 Notation nm := (i_name NO I).
 Notation leaf_loop := (leaf_loop NO I calc).
 Notation leaf_calculate := (leaf_calculate NO I calc).
 Definition has_key (c : cd) : Prop := alist_mem nm (own_dict NO I (p c)) = true.
 
-Lemma W_nonneg : 0 <= W.
-Proof. destruct (i_kind NO I); cbn [lookback period_ok] in HW, Hp; inversion HW; subst; lia. Qed.
+Lemma W_nonneg : 0 <= W. Proof. exact HW0. Qed.
 
 Lemma set_reading_skip (pre st : store) v i : zlen pre <= i ->
   set_reading NO (pre ++ st) I v i = (st' <- set_reading NO st I v (i - zlen pre) ;; Ok (pre ++ st')).
@@ -67,12 +69,12 @@ Lemma leaf_loop_skip (pre : store) : forall (idxs : list Z) (st : store),
   leaf_loop (map (fun i => zlen pre + i) idxs) (pre ++ st) = (st' <- leaf_loop idxs st ;; Ok (pre ++ st')).
 Proof.
   induction idxs as [|i idxs IH]; intros st Hi; cbn [map EngineProofs.leaf_loop]; [reflexivity|].
-  inversion Hi as [|? ? Hi1 Hi2]; subst. pose proof (zlen_nonneg pre) as Hk. pose proof W_nonneg as HW0.
+  inversion Hi as [|? ? Hi1 Hi2]; subst. pose proof (zlen_nonneg pre) as Hk. pose proof W_nonneg as HWn.
   rewrite (pyidx_skip NO pre st) by lia. replace (zlen pre + i - zlen pre) with i by lia.
   destruct (pyidx st i) as [c|]; [|reflexivity].
   destruct (match alist_get nm (own NO I c) with Some v => negb (is_none NO v) | None => false end).
   - apply IH. exact Hi2.
-  - rewrite (trim_invariant NO I pre st (zlen pre + i) W HW Hp) by (rewrite zlen_app; lia).
+  - rewrite (Hloc pre st (zlen pre + i)) by (rewrite zlen_app; lia).
     replace (zlen pre + i - zlen pre) with i by lia.
     destruct (calc st i) as [v|e]; cbn [bind]; [|reflexivity].
     rewrite set_reading_skip by lia. replace (zlen pre + i - zlen pre) with i by lia.
@@ -173,3 +175,35 @@ Proof.
 Qed.
 
 End TrimRun.
+
+(* the two families of classes for which the locality hypothesis is proved *)
+Section TrimRunKinds.
+Context (NO : NumOps).
+Variable I : ind NO.
+Hypothesis Hleaf : i_subs NO I = [] /\ i_managed NO I = [].
+Hypothesis Hpure : forall rec st i, calc_reading NO rec I st i = (v <- pure_calc NO I st i ;; Ok (v, st)).
+
+Theorem calculate_after_trim_rec (W : Z) (pre S new : store NO) :
+  lookback NO (i_kind NO I) = Some W -> period_ok NO (i_kind NO I) ->
+  Forall (has_key NO I) pre -> Forall (has_key NO I) S -> (2 <= List.length S)%nat -> W <= zlen S -> Forall (fresh NO I) new ->
+  calculate NO I ((pre ++ S) ++ new) = (r <- calculate NO I (S ++ new) ;; Ok (pre ++ r)).
+Proof.
+  intros HW Hp. apply (calculate_after_trim NO I W).
+  - destruct (i_kind NO I); cbn [lookback period_ok] in HW, Hp; inversion HW; subst; lia.
+  - intros p0 st i Hi. exact (trim_invariant NO I p0 st i W HW Hp Hi).
+  - exact Hleaf.
+  - exact Hpure.
+Qed.
+
+Theorem calculate_after_trim_win (W : Z) (pre S new : store NO) :
+  lookback_win NO (i_kind NO I) = Some W -> period_ok_win NO (i_kind NO I) ->
+  Forall (has_key NO I) pre -> Forall (has_key NO I) S -> (2 <= List.length S)%nat -> W <= zlen S -> Forall (fresh NO I) new ->
+  calculate NO I ((pre ++ S) ++ new) = (r <- calculate NO I (S ++ new) ;; Ok (pre ++ r)).
+Proof.
+  intros HW Hp. apply (calculate_after_trim NO I W).
+  - destruct (i_kind NO I); cbn [lookback_win period_ok_win] in HW, Hp; inversion HW; subst; lia.
+  - intros p0 st i Hi. exact (trim_invariant_win NO I p0 st i W HW Hp Hi).
+  - exact Hleaf.
+  - exact Hpure.
+Qed.
+End TrimRunKinds.
